@@ -428,7 +428,7 @@ static void installCallbacks(World *w, Transport *t)
       if (w->armReset.compare_exchange_strong(e, false))
       {
         // sole owner releases the transport inside its own close callback (I/O thread): deferred self-destruction
-        w->tr.add(vf::Ev("LifeCall").str("t", "io").str("op", "destroy_in_cb").i("vt", w->vms()));
+        w->tr.add(vf::Ev("LifeCall").str("t", "io").str("op", "destroy_in_cb").i("vt", w->vms()).i("uj", vf::unfairJumps()));
         w->owner.reset();
         w->tr.add(vf::Ev("LifeRet").str("t", "io").str("op", "destroy_in_cb"));
       }
@@ -464,15 +464,15 @@ static void appOps(World *w, const ThreadProg &tp, std::vector<std::thread> *oth
       std::size_t len = (std::size_t)atoi(f[2].c_str());
       int to = atoi(f[3].c_str());
       std::vector<std::uint8_t> buf(len ? len : 1);
-      w->tr.add(vf::Ev("RecvCall").str("t", tp.name).i("s", (long long)s).i("len", (long long)len).i("to", to).i("vt", w->vms()));
+      w->tr.add(vf::Ev("RecvCall").str("t", tp.name).i("s", (long long)s).i("len", (long long)len).i("to", to).i("vt", w->vms()).i("uj", vf::unfairJumps()));
       auto r = t->receiveSync(s, buf.data(), len, std::chrono::milliseconds(to));
       if (r.isOk())
       {
         long from = len ? buf[0] : 0;
-        w->tr.add(vf::Ev("RecvRet").str("t", tp.name).i("s", (long long)s).str("res", "ok").i("from", from).i("to", from + (long)len).i("vt", w->vms()));
+        w->tr.add(vf::Ev("RecvRet").str("t", tp.name).i("s", (long long)s).str("res", "ok").i("from", from).i("to", from + (long)len).i("vt", w->vms()).i("uj", vf::unfairJumps()));
       }
       else
-        w->tr.add(vf::Ev("RecvRet").str("t", tp.name).i("s", (long long)s).str("res", errName(r.error().code)).i("from", 0).i("to", 0).i("vt", w->vms()));
+        w->tr.add(vf::Ev("RecvRet").str("t", tp.name).i("s", (long long)s).str("res", errName(r.error().code)).i("from", 0).i("to", 0).i("vt", w->vms()).i("uj", vf::unfairJumps()));
     }
     else if (op == "mode")
     {
@@ -485,10 +485,10 @@ static void appOps(World *w, const ThreadProg &tp, std::vector<std::thread> *oth
     else if (op == "csync")
     {
       int to = atoi(f[1].c_str());
-      w->tr.add(vf::Ev("ConnCall").str("t", tp.name).i("to", to).i("vt", w->vms()));
+      w->tr.add(vf::Ev("ConnCall").str("t", tp.name).i("to", to).i("vt", w->vms()).i("uj", vf::unfairJumps()));
       auto r = t->connectSync("127.0.0.1", 1, TlsMode::None, std::chrono::milliseconds(to));
       w->tr.add(vf::Ev("ConnRet").str("t", tp.name).b("ok", r.isOk()).i("s", r.isOk() ? (long long)r.value() : 0)
-                  .str("err", r.isOk() ? "-" : errName(r.error().code)).i("vt", w->vms()));
+                  .str("err", r.isOk() ? "-" : errName(r.error().code)).i("vt", w->vms()).i("uj", vf::unfairJumps()));
     }
     else if (op == "connect")
     {
@@ -544,7 +544,7 @@ static void appOps(World *w, const ThreadProg &tp, std::vector<std::thread> *oth
     }
     else if (op == "stop")
     {
-      w->tr.add(vf::Ev("LifeCall").str("t", tp.name).str("op", "stop").i("vt", w->vms()));
+      w->tr.add(vf::Ev("LifeCall").str("t", tp.name).str("op", "stop").i("vt", w->vms()).i("uj", vf::unfairJumps()));
       t->stop();
       w->stopReturned.store(true);
       w->tr.add(vf::Ev("LifeRet").str("t", tp.name).str("op", "stop"));
@@ -570,7 +570,7 @@ static void appOps(World *w, const ThreadProg &tp, std::vector<std::thread> *oth
         if (allQuiet) break;
         sched_yield();
       }
-      w->tr.add(vf::Ev("LifeCall").str("t", tp.name).str("op", "destroy").i("vt", w->vms()));
+      w->tr.add(vf::Ev("LifeCall").str("t", tp.name).str("op", "destroy").i("vt", w->vms()).i("uj", vf::unfairJumps()));
       w->destroyed = true;
       w->owner.reset();
       w->stopReturned.store(true);
@@ -590,6 +590,7 @@ static std::string runOne(int cap, const std::vector<ThreadProg> &prog, const vf
   vf::Options o = opt;
   o.maxSteps = 30000;
   o.pointAfterUnlock = true;
+  o.earliestDeadlineFirst = true;
   vf::reset(o);
   vf::spawn("main",
             [w, cap]()
@@ -623,7 +624,7 @@ static std::string runOne(int cap, const std::vector<ThreadProg> &prog, const vf
               vf::point("call");
               if (!w->destroyed.load())
               {
-                w->tr.add(vf::Ev("LifeCall").str("t", "main").str("op", "destroy").i("vt", w->vms()));
+                w->tr.add(vf::Ev("LifeCall").str("t", "main").str("op", "destroy").i("vt", w->vms()).i("uj", vf::unfairJumps()));
                 w->owner.reset();
                 w->stopReturned.store(true);
                 w->tr.add(vf::Ev("LifeRet").str("t", "main").str("op", "destroy"));
@@ -636,6 +637,12 @@ static std::string runOne(int cap, const std::vector<ThreadProg> &prog, const vf
                                                          : "external";
   w->tr.add(vf::Ev("End").str("outcome", oc).strs("stuck", r.stuck).i("steps", (long long)r.steps.size()));
   std::string text = w->tr.text();
+  if (getenv("VF_STEPLOG"))
+  {
+    std::string s = "%T";
+    for (auto &st : r.steps) s += " " + st.thread + "/" + st.op;
+    text += s + "\n";
+  }
   if (emitSched)
   {
     std::string s = "#S";
